@@ -34,7 +34,8 @@ BOUND = {
 }
 TIME_CAP = {"quick": 300, "thorough": 3000}
 
-STAT_ALPHA = {"f8": [None, "1.0", "2.0", "-1.5", "0.25"], "i8": [0, 1, 2, -3, 4611686018427387904], "b1": [False, True], "u1": [0, 1, 200, 255],
+# (1e9 + 0.5 and 1e9 + 1.5: a large common offset, small spread - a one-pass variance cancels catastrophically there)
+STAT_ALPHA = {"f8": [None, "1.0", "2.0", "-1.5", "0.25", "1000000000.5", "1000000001.5"], "i8": [0, 1, 2, -3, 4611686018427387904], "b1": [False, True], "u1": [0, 1, 200, 255],
               "i4": [0, 1, -2147483647, 2147483647]}  # neighbouring order statistics further apart than the type is wide
 GEN_ALPHA = {
     "f8": [None, "1.0", "2.0", "-inf"],
